@@ -180,8 +180,21 @@ func (p *PsUnpacker) FeedRtpPacket(b []byte) error {
 }
 
 // FeedRtpBody 注意，传入的数据应该是连续的，属于完整帧的
-func (p *PsUnpacker) FeedRtpBody(rtpBody []byte, rtpts uint32) error {
+func (p *PsUnpacker) FeedRtpBody(rtpBody []byte, rtpts uint32) (err error) {
 	p.feedBodyCount++
+
+	// 注意，下面的解析逻辑有些地方没有做有效长度判断，遇到不合法的ps数据时会越界。
+	// 这里做兜底：丢弃已缓存的数据并返回错误（上层会重置rtp队列，从后续的包重新开始），而不是让整个进程崩溃
+	defer func() {
+		if r := recover(); r != nil {
+			nazalog.Errorf("PsUnpacker parse ps failed, reset all cache buffer. err=%+v, len=(%d,%d,%d)",
+				r, p.buf.Len(), len(p.audioBuf), len(p.videoBuf))
+			p.buf.Reset()
+			p.audioBuf = nil
+			p.videoBuf = nil
+			err = base.ErrGb28181
+		}
+	}()
 
 	//nazalog.Debugf("> FeedRtpBody. len=%d, prev buf=%d", len(rtpBody), p.buf.Len())
 	p.buf.Write(rtpBody)
